@@ -103,6 +103,18 @@ class JournalFileBackend(BaseJournalBackend):
             what_to_write = (
                 "\n".join([json.dumps(log, separators=(",", ":")) for log in logs]) + "\n"
             )
+            with open(self._file_path, "rb+") as f:
+                # Drop an incomplete record left at the end of the file by a crashed writer.
+                # Otherwise, the record appended below would be glued to it and corrupt the log.
+                size = f.seek(0, os.SEEK_END)
+                pos = size
+                while pos > 0:
+                    f.seek(pos - 1)
+                    if f.read(1) == b"\n":
+                        break
+                    pos -= 1
+                if pos != size:
+                    f.truncate(pos)
             with open(self._file_path, "ab") as f:
                 f.write(what_to_write.encode("utf-8"))
                 f.flush()
